@@ -65,7 +65,9 @@ class Weird:
 SIMPLE_HEADER = "from inline_snapshot import snapshot, Is\n\n"
 
 STR_POOL = ["", "a", "b c", "it's", 'say "hi"', "x\ny", "tab\there", "back\\slash", "é", "\U0001F40D", "line1\nline2\n", " lead", "trail ",
-            "q'\"both", "\x00nul", "a\rb", "long " * 6, "'a' \"b\"", "it's \"x\""]
+            "q'\"both", "\x00nul", "a\rb", "long " * 6, "'a' \"b\"", "it's \"x\"",
+            # multi-line texts with blanks in front of punctuation (what a "remove the blanks untokenize adds" clean-up would also hit inside a literal)
+            "name = value\nkey : 1\n", "f (x) , y\n[ a ]\n{ b }\n", "Hello (world) = 1 , 2\n  indented : yes"]
 BYTES_POOL = [b"", b"a", b"\x00\xff", b"it's", b'q"', b"nl\n"]
 KEY_STR = ["k", "key2", "z z", "a'b"]
 
